@@ -10,8 +10,7 @@
    WHAT IS PROVED AND WHAT IS ONLY CHECKED (after the independent review, 2026-10-02):
    (a) "terminates": the model is total by construction; the cost of Python's regex engine is NOT modelled — the harness
        measures growth exponents on scaling families (three super-linear families are kept findings `C13|scaling|…`).
-   (b) "only its own errors": proved (C13_every_exception_classified, C13_own_errors_only/_when_fences_clean, the ValueError
-       refutation); inside the PUnmodelled hole the model stops INSIDE template.format (C13_unmodelled_only_inside_format),
+   (b) "only its own errors": proved (C13_every_exception_classified, C13_own_errors_only — unguarded since fix 1c7ed70 —, C13_own_errors_nocheck); inside the PUnmodelled hole the model stops INSIDE template.format (C13_unmodelled_only_inside_format),
        which fsic wraps in an except clause for all seven exception classes str.format can raise — that CPython fact is an
        assumption, exercised by generated format-spec inputs.
    (c) "returns with the check on => build_model succeeds and the class can be instantiated": NO model and NO theorem; judged
@@ -34,28 +33,30 @@ Section C13.
   Variable chk : string -> chk_res.          (* CPython's compile() + recorded warnings, any behaviour *)
 
   (* every exception the model can produce, for EVERY input string, either setting of check_syntax and every oracle:
-     the parser's three own errors; or ValueError from `equation.split('=')`, and then only for a statement
-     that has no '=' and was accepted through the fenced-block alternative of equation_re (finding, see
-     C13_own_errors_refuted); or the oracle's own foreign exception — since fix 74fa5fb that means an exception of compile()
-     OUTSIDE SyntaxError / ValueError / RecursionError / MemoryError / OverflowError (those are ChkSyntaxError / ChkCaughtExn) *)
+     the parser's three own errors, or the oracle's own foreign exception — since fix 74fa5fb that means an exception of
+     compile() OUTSIDE SyntaxError / ValueError / RecursionError / MemoryError / OverflowError (those are ChkSyntaxError /
+     ChkCaughtExn) — and that only with the check on.  (Until fix 1c7ed70 there was a third case: ValueError for a statement
+     without '=' accepted through the fenced-block alternative of equation_re; it is a ParserError now.) *)
   Theorem C13_every_exception_classified cs s e :
     parse_model_M chk cs s = PErr e ->
     (e = ParserError \/ e = SymbolError \/ e = IndentationError) \/
-    (e = ValueError /\ exists st, In st (fst (split_M s)) /\ stmt_ok st = true /\
-                                  (has_char "=" st = false /\ backticked st = false) /\ has_fence_match st = true) \/
     (e = OtherError /\ cs = true /\ exists c, chk c = ChkOtherExn).
-  Proof. exact (parse_model_errors chk cs s e). Qed.
+  Proof. exact (parse_model_errors_own chk cs s e). Qed.
 
-  (* own_errors_only: oracle range within {Ok, SyntaxError, SyntaxWarning, OtherWarning n}; guard = every
-     statement contains '=' or is a verbatim block; inputs the format model does not decide are PUnmodelled *)
+  (* own errors only, with NO guard on the script: for every input string and every oracle that raises no foreign exception
+     itself; inputs the format model does not decide are PUnmodelled (see C13_unmodelled_only_inside_format) *)
   Theorem C13_own_errors_only cs s :
-    (forall c, chk c <> ChkOtherExn) -> no_eqless_statement s = true ->
+    (forall c, chk c <> ChkOtherExn) ->
     match parse_model_M chk cs s with
     | POk _ => True
     | PUnmodelled => True
     | PErr e => e = ParserError \/ e = SymbolError \/ e = IndentationError
     end.
-  Proof. exact (own_errors_only chk cs s). Qed.
+  Proof. exact (own_errors_always chk cs s). Qed.
+  (* with check_syntax=False there is no oracle: unconditional *)
+  Theorem C13_own_errors_nocheck s e :
+    parse_model_M chk false s = PErr e -> e = ParserError \/ e = SymbolError \/ e = IndentationError.
+  Proof. exact (own_errors_nocheck chk s e). Qed.
 
   (* chk_outcomes_propagate: a foreign exception of the oracle on a code that is reached comes out as it is … *)
   (* [interface] *)
@@ -183,22 +184,10 @@ Section C13.
     (n_emitted out = length (fst (split_M s)) <->
      Nat.eqb (count_new [] (emit_names (concat (stmt_symbols s)))) (length (filter (fun st => negb (backticked st)) (fst (split_M s)))) = true).
   Proof. exact (statement_count_iff chk cs s out). Qed.
-
-  (* own errors only, under a SYNTACTIC condition on the script (fences_clean_model: every line that starts with ```
-     consists of backticks only and is met with the bracket counter at zero): then every statement holds an "=" or is
-     verbatim code, so nothing but ParserError / SymbolError / IndentationError can come out.  Both excluded shapes do
-     raise ValueError (C13_fences_clean_needed). *)
-  Theorem C13_own_errors_when_fences_clean cs s :
-    (forall c, chk c <> ChkOtherExn) -> fences_clean_model s = true ->
-    match parse_model_M chk cs s with
-    | POk _ => True
-    | PUnmodelled => True
-    | PErr e => e = ParserError \/ e = SymbolError \/ e = IndentationError
-    end.
-  Proof. exact (own_errors_when_fences_clean chk cs s). Qed.
 End C13.
 Print Assumptions C13_every_exception_classified.
 Print Assumptions C13_own_errors_only.
+Print Assumptions C13_own_errors_nocheck.
 Print Assumptions C13_chk_outcomes_propagate.
 Print Assumptions C13_other_exn_only_from_oracle.
 Print Assumptions C13_nocheck_ignores_oracle.
@@ -215,7 +204,6 @@ Print Assumptions C13_oracle_sees_only_generated_codes.
 Print Assumptions C13_names_unique.
 Print Assumptions C13_model_equation_count.
 Print Assumptions C13_statement_count_iff.
-Print Assumptions C13_own_errors_when_fences_clean.
 
 Theorem C13_count_new_is_distinct_count l seen :
   exists l', NoDup l' /\ (forall x, In x l' <-> In x l /\ ~ In x seen) /\ count_new seen l = length l'.
@@ -340,20 +328,30 @@ Theorem C13_no_statement_discarded_satisfiable :
 Proof. exact ordinary_hyps. Qed.
 Print Assumptions C13_no_statement_discarded_satisfiable.
 
+(* a structural fact about the splitter (it was the syntactic guard of own_errors_only until fix 1c7ed70 made the guard
+   unnecessary): when every line that starts with ``` consists of backticks only and is met with the bracket counter at zero,
+   every statement holds an "=" or is verbatim code; both excluded shapes do produce an '='-less non-verbatim statement *)
 Theorem C13_fences_clean_implies_guard s : fences_clean_model s = true -> no_eqless_statement s = true.
 Proof. exact (fences_clean_no_eqless s). Qed.
 Print Assumptions C13_fences_clean_implies_guard.
 Theorem C13_fences_clean_needed :
   fences_clean_model ordinary = true /\ fences_clean_model eqless_fence = false /\ fences_clean_model eqless_fence2 = false /\
-  parse_model_nocheck eqless_fence2 = PErr ValueError /\ no_eqless_statement eqless_fence2 = false.
+  parse_model_nocheck eqless_fence2 = PErr ParserError /\ no_eqless_statement eqless_fence2 = false.
 Proof. exact fences_clean_values. Qed.
 Print Assumptions C13_fences_clean_needed.
 
-(* the full statement "only the parser's own errors" is FALSE of the faithful model (new finding) *)
-Theorem C13_own_errors_refuted :
-  exists s, parse_model_M chk_none false s = PErr ValueError /\ no_eqless_statement s = false.
-Proof. exact (ex_intro _ eqless_fence (conj eqless_fence_value_error eqless_fence_outside_guard)). Qed.
-Print Assumptions C13_own_errors_refuted.
+(* the ValueError finding REPAIRED by fix 1c7ed70 (was C13_own_errors_refuted: '(\n```\n```\n)' raised ValueError from
+   `equation.split('=')`): a statement text without '=' is rejected with ParserError by parse_equation_terms, for EVERY text;
+   the two witness shapes are ParserErrors *)
+Theorem C13_statement_without_equals_is_parser_error eq :
+  has_char "=" eq = false -> parse_equation_terms eq = Raise ParserError.
+Proof. exact (parse_equation_terms_no_eq eq). Qed.
+Print Assumptions C13_statement_without_equals_is_parser_error.
+Theorem C13_statement_without_equals_instances :
+  parse_model_nocheck eqless_fence = PErr ParserError /\ parse_model_nocheck eqless_fence2 = PErr ParserError /\
+  no_eqless_statement eqless_fence = false.
+Proof. exact (conj eqless_fence_parser_error (conj (proj1 (proj2 (proj2 (proj2 fences_clean_values)))) eqless_fence_outside_guard)). Qed.
+Print Assumptions C13_statement_without_equals_instances.
 
 (* #24 REPAIRED by fix 85765d5 (was C13_unclosed_fence_drops_statements_refuted): a script whose last fence is never
    closed is ALWAYS rejected.  The splitter ends with ParserError whatever it yielded before; parse_model never accepts
